@@ -19,6 +19,8 @@ RULES = {
     "R05.3": "membership maintains the index",
     "R12.x": "the lazy wrapper behind the index: edit-time capture, in-order replay or rebuild on "
              "every path, queue cleared, client discipline (R12.2-R12.4, shared with C12)",
+    "R05.8": "forest integrity ('each exactly once'): every node is in one collection once - the "
+             "attach/detach pairing and store routing of C04 (R03.3, R03.5)",
     "R05.6": "bias agreement of the closed-interval encoding",
     "R05.7": "boundary logic of the tree helpers and of the linear scans nodes_on/nodes_at as "
              "difference constraints",
@@ -53,6 +55,9 @@ def run(chk: Check) -> None:
             n += 1
     chk.floor("R05.3", "index halves of the interval-set primitives", n, 2)
     bias_consumers(chk, "R05.6", ["util", "section"])
+    for prop, rule, construct, ok, loc, msg, facts in own.obs:
+        if prop == "C04" and rule in ("R03.3", "R03.5"):
+            chk.ob("R05.8", construct, ok, loc, msg, facts)
     from .c12 import _capture, _get, _ownership
     lt = repo.cls("LazyIntervalTree")
     sub = chk.sub()
